@@ -422,6 +422,10 @@ impl Parser {
                 if self.built_in_functions.is_built_in(&token.lexeme) {
                     continue;
                 }
+                // built-in constant is defined only once in root scope, not per module
+                if token.lexeme.iter().collect::<String>() == "_প্ল্যাটফর্ম" {
+                    continue;
+                }
                 let mut i = 0;
                 for c in prepend.iter() {
                     token.lexeme.insert(i, c.clone());
